@@ -106,8 +106,10 @@ def wrapSub (c : Cfg) (e s : Nat) : Nat := (e + c.modulus - s) % c.modulus
 
 /-- The loop after the sign cases: every nonzero `r[i]` with `abs(r[i]) < fi.smallest_normal`
 becomes a zero of the same sign. -/
-def flush (c : Cfg) (l : List Nat) : List Nat :=
-  l.map fun b => if isSubnormal c b then (if b < c.sb then 0 else c.negZero) else b
+def flush1 (c : Cfg) (b : Nat) : Nat :=
+  if isSubnormal c b then (if b < c.sb then 0 else c.negZero) else b
+
+def flush (c : Cfg) (l : List Nat) : List Nat := l.map (flush1 c)
 
 /-- insertion into a list sorted by `skey` (stable: goes before equal keys) -/
 def ins (c : Cfg) (x : Nat) : List Nat → List Nat
@@ -179,24 +181,34 @@ def numOf (c : Cfg) (p : Params) : Int :=
   let num : Int := if !p.nonnegative && !p.userBounds then size / 2 else size
   if p.includeInfinity && !p.userBounds then num - 1 else num
 
+/-- `min_value` after defaulting (`-dtype(fi.max)` when only a negative `max_value` is given,
+else `min_pos_value`) -/
+def defaultMin (c : Cfg) (p : Params) : Nat :=
+  match p.minValue with
+  | some v => v
+  | none => match p.maxValue with
+    | some mx => if flt c mx 0 then negB c c.maxFin else minPos c p
+    | none => minPos c p
+
+/-- `max_value` after defaulting, given the defaulted `min_value` -/
+def defaultMax (c : Cfg) (p : Params) (minV : Nat) : Nat :=
+  match p.maxValue with
+  | some v => v
+  | none => if flt c minV 0 then negB c (minPos c p) else c.maxFin
+
+/-- the `if not include_subnormal:` adjustment of `min_value` -/
+def adjustLo (c : Cfg) (p : Params) (v : Nat) : Nat :=
+  if !p.includeSubnormal && !feq c v 0 && flt c (mag c v) (minPos c p) then
+    (if flt c v 0 then negB c (minPos c p) else 0) else v
+
+/-- the `if not include_subnormal:` adjustment of `max_value` -/
+def adjustHi (c : Cfg) (p : Params) (v : Nat) : Nat :=
+  if !p.includeSubnormal && !feq c v 0 && flt c (mag c v) (minPos c p) then
+    (if flt c v 0 then c.negZero else minPos c p) else v
+
 /-- `(min_value, max_value)` after defaulting and after the `if not include_subnormal:` block -/
 def resolveBounds (c : Cfg) (p : Params) : Nat × Nat :=
-  let mp := minPos c p
-  let minV : Nat := match p.minValue with
-    | some v => v
-    | none => match p.maxValue with
-      | some mx => if flt c mx 0 then negB c c.maxFin else mp
-      | none => mp
-  let maxV : Nat := match p.maxValue with
-    | some v => v
-    | none => if flt c minV 0 then negB c mp else c.maxFin
-  let minV' : Nat :=
-    if !p.includeSubnormal && !feq c minV 0 && flt c (mag c minV) mp then
-      (if flt c minV 0 then negB c mp else 0) else minV
-  let maxV' : Nat :=
-    if !p.includeSubnormal && !feq c maxV 0 && flt c (mag c maxV) mp then
-      (if flt c maxV 0 then c.negZero else mp) else maxV
-  (minV', maxV')
+  (adjustLo c p (defaultMin c p), adjustHi c p (defaultMax c p (defaultMin c p)))
 
 /-- `extra` of the unbounded branch -/
 def extras (c : Cfg) (p : Params) : List Nat :=
